@@ -909,6 +909,18 @@ func (c *evalCtx) callExpr(n *ECall) EV {
 			w := c.eval(n.Args[1])
 			ln := cx.Extend(c.toMath(c.eval(n.Args[2])), 64, true)
 			return EV{V: Val{Typ: types.Typ[types.Uint32], Terms: []*smt.Term{cx.App("crc32.update", smt.BV(32), st0.V.Terms[0], w.V.Terms[0], ln)}}}
+		case "encLen":
+			// encLen(codec, msg, version): the encoded length of msg under codec - an uninterpreted function of the
+			// codec and message identities (valid while the message is not modified) and of the version
+			cd, m, v := c.eval(n.Args[0]), c.eval(n.Args[1]), c.eval(n.Args[2])
+			return EV{V: Val{Typ: types.Typ[types.Int], Terms: []*smt.Term{cx.App("msg.enclen", smt.BV(64), cd.V.Terms[0], cd.V.Terms[1], m.V.Terms[0], m.V.Terms[1], v.V.Terms[0])}}}
+		case "abstractLen":
+			// abstractLen("name", x): an uninterpreted length of x (used for notations whose length loops are not yet under proof)
+			nm := n.Args[0].(*EStr).S
+			a := c.eval(n.Args[1])
+			return EV{V: Val{Typ: types.Typ[types.Int], Terms: []*smt.Term{cx.App("abslen."+nm, smt.BV(64), a.V.Terms[0])}}}
+		case "fold":
+			return c.foldExpr(n)
 		case "isnil":
 			a := c.eval(n.Args[0])
 			return boolEV(cx.Eq(a.V.Terms[0], cx.IntLit(0)))
@@ -1032,6 +1044,22 @@ func (c *evalCtx) callRepo(fn *ssa.Function, recv *Val, argx []Expr) EV {
 			}
 			return EV{V: v}
 		}
+	}
+	if lct != nil && (len(lct.Assumes) > 0 || len(lct.Ensures) > 0) && !lct.Inline && (info.hasLoop || fn.Blocks == nil) {
+		// a function with loops is used through its contract
+		e.quiet++
+		scratch := c.st.clone()
+		scratch.Reach = e.C.True()
+		fr := c.f
+		if fr == nil || fr.engine == nil {
+			fr = &frame{engine: e}
+		}
+		v := e.applyContract(fr, scratch, lct, fn, fn.Signature, args, resultType(fn.Signature), "", FuncKey(fn))
+		e.quiet--
+		n := len(e.comps(fn.Signature.Results().At(0).Type()))
+		r := Val{Typ: fn.Signature.Results().At(0).Type(), Terms: v.Terms[:n]}
+		e.wrapPtr(&r)
+		return EV{V: r}
 	}
 	if fn.Blocks == nil || info.rejects || (info.hasLoop && (lct == nil || len(lct.Unroll) == 0)) {
 		c.fail("function %s cannot be used in a contract expression (no body / loops without unroll)", fn)
@@ -1160,4 +1188,60 @@ func termHas(t, v *smt.Term) bool {
 		}
 	}
 	return false
+}
+
+// foldExpr evaluates fold(f, s, t) = sum over k < t of f(s[k]) (in int arithmetic), as an uninterpreted function of the slice's
+// contents and t, and instantiates its two defining equations at t:  fold(f,s,0) = 0  and, for 0 < t <= len(s),
+// fold(f,s,t) = fold(f,s,t-1) + Z(f(s[t-1])).
+func (c *evalCtx) foldExpr(n *ECall) EV {
+	e := c.e
+	cx := e.C
+	if len(n.Args) != 3 {
+		c.fail("fold(f, s, t)")
+	}
+	fid, ok := n.Args[0].(*EIdent)
+	if !ok {
+		c.fail("fold: first argument must name a function")
+	}
+	sv := c.eval(n.Args[1]).V
+	sl, ok := types.Unalias(sv.Typ).Underlying().(*types.Slice)
+	if !ok {
+		c.fail("fold: second argument must be a slice")
+	}
+	t := cx.Extend(c.toMath(c.eval(n.Args[2])), 64, true)
+	el := sl.Elem()
+	var inner []*smt.Term
+	for k, so := range e.comps(el) {
+		arr := e.heapArr(c.st, elemName(el, k), smt.Array(smt.Int, smt.Array(smt.BV(64), so)))
+		inner = append(inner, cx.Select(arr, sv.Terms[0]))
+	}
+	name := "fold." + fid.Name + "." + sortTag(smt.Sort(typeStr(el)))
+	app := func(idx *smt.Term) *smt.Term {
+		args := append(append([]*smt.Term{}, inner...), sv.Terms[1], idx)
+		return cx.App(name, smt.BV(64), args...)
+	}
+	res := app(t)
+	if e.noAssume == 0 {
+		one := cx.BVLit64(1, 64)
+		prev := cx.Op("bvsub", smt.BV(64), t, one)
+		// element at t-1
+		p := Val{Typ: types.NewPointer(el), Terms: []*smt.Term{sv.Terms[0]},
+			Ptr: &PtrInfo{Root: el, IsElem: true, Elem: cx.Op("bvadd", smt.BV(64), sv.Terms[1], prev), N: len(e.comps(el))}}
+		e.noAssume++
+		elem := e.load(c.st, p, el)
+		e.noAssume--
+		sub := *c
+		sub.bound = map[string]EV{}
+		for k, v := range c.bound {
+			sub.bound[k] = v
+		}
+		sub.bound["fold$elem"] = EV{V: elem}
+		fv := cx.Extend(sub.toMath(sub.eval(&ECall{Fn: &EIdent{Name: fid.Name}, Args: []Expr{&EIdent{Name: "fold$elem"}}})), 64, true)
+		zero := cx.BVLit64(0, 64)
+		e.assume(c.st, cx.Eq(app(zero), zero))
+		e.assume(c.st, cx.Implies(cx.And(cx.Op("bvslt", smt.Bool, zero, t), cx.Op("bvsle", smt.Bool, t, sv.Terms[2])),
+			cx.Eq(res, cx.Op("bvadd", smt.BV(64), app(prev), fv))))
+	}
+	// the sum is taken in Go's int arithmetic (wrapping), exactly like the length loops and the byte counter
+	return EV{V: Val{Typ: types.Typ[types.Int], Terms: []*smt.Term{res}}}
 }
